@@ -42,6 +42,48 @@ func Check(v any) error {
 		return errors.New("jsonapi: ID field is not a string")
 	}
 
+	// Check the names of the attributes and relationships
+	names := map[string]int{}
+	for i := 0; i < value.NumField(); i++ {
+		names[value.Type().Field(i).Tag.Get("json")]++
+	}
+
+	for i := 0; i < value.NumField(); i++ {
+		sf := value.Type().Field(i)
+		apiTag := sf.Tag.Get("api")
+
+		if sf.Name == "ID" {
+			continue
+		}
+
+		if apiTag != "attr" && apiTag != "rel" && !strings.HasPrefix(apiTag, "rel,") {
+			continue
+		}
+
+		name := sf.Tag.Get("json")
+
+		switch {
+		case name == "":
+			return fmt.Errorf(
+				"jsonapi: field %q of type %q has no json tag",
+				sf.Name,
+				resType,
+			)
+		case name == "id":
+			return fmt.Errorf(
+				"jsonapi: field %q of type %q cannot be named \"id\"",
+				sf.Name,
+				resType,
+			)
+		case names[name] > 1:
+			return fmt.Errorf(
+				"jsonapi: name %q of type %q is used by more than one field",
+				name,
+				resType,
+			)
+		}
+	}
+
 	// Check attributes
 	for i := 0; i < value.NumField(); i++ {
 		sf := value.Type().Field(i)
